@@ -62,10 +62,16 @@ def impl_view(r):
 
 # ---- model --------------------------------------------------------------------------------------
 
+def is_path_case(case):
+    return case.get("ndirs", 1) > 1 or any(p.get("argv") is not None for p in case["procs"])
+
+
 def model_req(case, executed):
-    if case.get("ndirs", 1) > 1:
-        return {"m": "c09", "op": "runpath", "sched": executed, "ndirs": case["ndirs"],
-                "procs": [{"kind": p["kind"], "lp": p.get("lp"), "tries": p.get("tries", 0), "path": p.get("path", [0]),
+    if is_path_case(case):
+        # kind "N" (no lock requested: lockType None, --nolocks, -h): a command with an empty path
+        return {"m": "c09", "op": "runpath", "sched": executed, "ndirs": case.get("ndirs", 1),
+                "procs": [{"kind": (p["kind"] if p["kind"] != "N" else "S"), "lp": p.get("lp"), "tries": p.get("tries", 0),
+                           "path": (p.get("path", [0]) if p["kind"] != "N" else []),
                            "explicit": p.get("explicit", True)} for p in case["procs"]]}
     return {"m": "c09", "op": "run", "sched": executed,
             "procs": [{"kind": p["kind"], "lp": p.get("lp"), "tries": p.get("tries", 0)} for p in case["procs"]]}
@@ -97,13 +103,72 @@ def lifetimes_overlap(r, n):
     return False
 
 
+# lock type per command line, transcribed from the `register(...)` calls of cmd.py and from setupcmd.py:
+# (kind, released by the command's own giveLocks).  The admin/distrib sub-commands take their locks in
+# AdminCmd.execute / DistribCmd.execute, which discard the list: released by the exit handler only.
+def cmd_spec(argv):
+    if "--nolocks" in argv or "-h" in argv or (argv[0] == "setup" and "-N" in argv):
+        return "N", True
+    table = {"list": ("S", True), "tags": ("S", True), "uses": ("S", True), "declare": ("E", True), "undeclare": ("E", True),
+             "remove": ("E", True), "flavor": ("N", True), "path": ("N", True), "flags": ("N", True), "vro": ("N", True),
+             "setup": ("S", True), "admin buildCache": ("E", False), "admin clearCache": ("E", False),
+             "admin listCache": ("S", False), "admin info": ("S", False), "admin clearLocks": ("N", True),
+             "admin listLocks": ("N", True), "admin show": ("N", True)}
+    key = " ".join(argv[:2]) if argv[0] in ("admin", "distrib") else argv[0]
+    return table[key]
+
+
+COMMANDS = [["list"], ["tags"], ["uses", "foo"], ["declare", "prod%d", "1.0", "-r", "none", "-m", "none"],
+            ["undeclare", "prod%d", "1.0"], ["remove", "prod%d", "1.0"], ["flavor"], ["path"], ["vro"],
+            ["setup", "foo"], ["setup", "-N", "foo"], ["list", "--nolocks"], ["declare", "-h"],
+            ["admin", "buildCache"], ["admin", "clearCache"], ["admin", "listCache"], ["admin", "info", "foo"],
+            ["admin", "listLocks"]]
+
+
+def cmd_proc(i, argv, path):
+    argv = [a % i if "%d" in a else a for a in argv]
+    kind, explicit = cmd_spec(argv)
+    pr = P(kind, explicit=explicit, tries=9)         # the command line never passes ntry: default 10 attempts
+    pr["argv"] = argv
+    pr["path"] = path
+    return pr
+
+
+def cmd_cases(rng, nrandom):
+    """real command lines through cmd.py / setupcmd.py: each alone on one and two stacks, then contended pairs/triples"""
+    cases = []
+    for argv in COMMANDS:
+        for nd in (1, 2):
+            cases.append({"procs": [cmd_proc(0, argv, list(range(nd)))], "sched": [], "ndirs": nd, "src": "cmd1"})
+    # the scan-before-create race between `eups declare` and `eups list`
+    cases.append({"procs": [cmd_proc(0, COMMANDS[3], [0]), cmd_proc(1, ["list"], [0])], "sched": [0, 1, 1, 1, 0, 1, 0],
+                  "ndirs": 1, "src": "cmdrace"})
+    # a command refused on the second stack gives the first one up again (D12e)
+    cases.append({"procs": [cmd_proc(0, COMMANDS[3], [1]), cmd_proc(1, COMMANDS[3], [0, 1])],
+                  "sched": [0, 0, 0] + [1] * 40, "ndirs": 2, "src": "cmdrace"})
+    for _ in range(nrandom):
+        nd = rng.choice([1, 2])
+        n = rng.choice([2, 2, 3])
+        procs = []
+        for i in range(n):
+            argv = rng.choice(COMMANDS)
+            path = list(range(nd)) if rng.random() < 0.7 else [rng.randrange(nd)]
+            procs.append(cmd_proc(i, argv, path))
+        L = rng.randint(8, 16) * n
+        sched = []
+        while len(sched) < L:
+            sched += [rng.randrange(n)] * rng.randint(1, 8)
+        cases.append({"procs": procs, "sched": sched, "ndirs": nd, "src": "cmd%d" % n})
+    return cases
+
+
 def residue_class(case, r):
     """D12f iff every lock file left behind belongs to a process with several stacks in its path whose giveLocks
     (or the giving-up inside a failed takeLocks) raised, or which left through the trepidation exit and releases
     only at exit (the exit handler is not registered on that path)."""
     if case.get("ndirs", 1) < 2:
         return None
-    files = [f for l in r["residue"] for f in l if f != G.LOCKDIR]
+    files = [f for l in r["residue"] for f in (l if isinstance(l, list) else [l]) if f != G.LOCKDIR]
     if not files:
         return None
     for f in files:
@@ -141,6 +206,23 @@ def oracle(case, r):
     for o in r["outcomes"]:
         if o.startswith("crash") or o.startswith("pending") or o == "timeout":
             yield ("terminates", None, "process ended as %s" % o)
+    # real command lines: the lock a command holds in its body is the one its kind demands, on every stack of its path
+    for i, sp in enumerate(case["procs"]):
+        if sp.get("argv") is None:
+            continue
+        kinds = (r.get("held_kinds") or [None] * n)[i]
+        held = (r.get("held") or [None] * n)[i]
+        if held is None:
+            continue        # never reached its body
+        want = sp["kind"]
+        if want == "N":
+            if held or any(t[0] == i and t[1] not in ("work", "-") for t in r["trace"]):
+                yield ("lock_type_of_command", None, "%r should not lock anything, holds %r" % (sp["argv"], kinds))
+        else:
+            trep = any(t[0] == i and t[1].startswith("exists_dir") and t[2] == "False" for t in r["trace"])
+            if any(k != want for k in kinds) or (sorted(held) != sorted(sp["path"]) and not trep):
+                yield ("lock_type_of_command", None, "%r should hold %s locks on stacks %r, holds %r on %r" % (
+                    sp["argv"], want, sp["path"], kinds, held))
     if case.get("phases") and r.get("phase_steps"):
         # grants on a phase-atomic order, against a lock table kept from the implementation's own answers
         procs = case["procs"]
@@ -314,8 +396,8 @@ def evaluate(ctx, cases):
     for c, r, a in zip(cases, impl, answers):
         iv, mv = impl_view(r), model_view(a)
         inp = {"procs": c["procs"], "sched": r["executed"], "base": c.get("base", "default")}
-        if c.get("ndirs", 1) > 1:
-            inp["ndirs"] = c["ndirs"]
+        if is_path_case(c):
+            inp["ndirs"] = c.get("ndirs", 1)
         if c.get("phases"):
             inp["phases"] = c["phases"]
         n = len(c["procs"])
@@ -329,6 +411,10 @@ def evaluate(ctx, cases):
         ctx.hist("nprocs=%d" % n)
         ctx.hist("nstacks=%d" % c.get("ndirs", 1))
         ctx.hist("kinds=" + "".join(sorted(p["kind"] for p in c["procs"])))
+        for p in c["procs"]:
+            if p.get("argv") is not None:
+                ctx.hist("cmd=" + " ".join(p["argv"][:2] if p["argv"][0] == "admin" else p["argv"][:1]) +
+                         ("" if p["kind"] != "N" or p["argv"][0] in ("flavor", "path", "vro") or p["argv"][:2] == ["admin", "listLocks"] else " (no lock requested)"))
         if any(p.get("lp") is not None for p in c["procs"]):
             ctx.hist("with_parent_child")
         if any(p.get("tries") for p in c["procs"]):
@@ -441,7 +527,7 @@ def run(ctx):
     nrand3, nrand4, nphase = ctx.n(500, 4000), ctx.n(150, 6000), ctx.n(300, 3000)
     batch = [random_case(ctx.rng, 3) for _ in range(nrand3)] + [random_case(ctx.rng, 4) for _ in range(nrand4)] + \
             [random_case(ctx.rng, 2) for _ in range(ctx.n(100, 1000))] + [phase_case(ctx.rng) for _ in range(nphase)] + \
-            [path_case(ctx.rng) for _ in range(ctx.n(400, 6000))]
+            [path_case(ctx.rng) for _ in range(ctx.n(400, 6000))] + cmd_cases(ctx.rng, ctx.n(120, 1500))
     for k in range(0, len(batch), 600):
         if ctx.out_of_time():
             ctx.note("time budget reached inside the random schedules")
@@ -460,7 +546,7 @@ def run(ctx):
 def replay(ctx, rp):
     c = rp["input"]
     case = {"procs": c["procs"], "sched": c["sched"], "base": c.get("base", "default"), "drain": True}
-    if c.get("ndirs", 1) > 1:
+    if "ndirs" in c:
         case["ndirs"] = c["ndirs"]
     if c.get("phases"):
         case["phases"] = c["phases"]
